@@ -948,8 +948,19 @@ def _exec_am(run):
             r, s = j * B + b, j * 2
             Tm = min(acts.shape[1], sa.shape[1])
             diff = [t for t in range(Tm) if int(acts[r, t]) != int(sa[s, t])]
+            if diff and diff[0] < forced and len(_feasible_starts(name, masks[b])) < k:
+                # fewer than k feasible starts: the start rule resamples at random (OP), so the batched and the
+                # solo run legitimately force different starts; nothing to compare for this replica
+                run.probe("am_resampled_starts_not_comparable")
+                continue
             if diff:
                 t = diff[0]
+                if t < forced:
+                    run.violate(scope, "batched_vs_solo", f"row {r} (instance {b}, replica {j}) is forced to start at "
+                                f"{int(acts[r, t])}, the same instance replicated alone at {int(sa[s, t])}, although it "
+                                f"has at least {k} feasible starts", constraint="forced_start", row=r, instance=b,
+                                replica=j, k=k, B=B, mode=mode)
+                    raise StopRun()
                 # selection flip inside float noise?  look at the gap between the two candidates
                 lp = tap.records[t - forced].logprobs[r].double()
                 gap = abs(float(lp[int(acts[r, t])]) - float(lp[int(sa[s, t])]))
